@@ -574,4 +574,18 @@ func TestReplay(t *testing.T) {
 	}
 }
 
-func TestKnownFindings(t *testing.T) { evid.RunWitnesses(t, nil) }
+func TestKnownFindings(t *testing.T) {
+	var cs []evid.Class
+	for _, f := range evid.Findings() {
+		if len(f.Witness) == 0 {
+			continue
+		}
+		var c Case
+		if err := stdjson.Unmarshal(f.Witness, &c); err != nil || c.Kind == "" || len(c.Docs) == 0 {
+			t.Errorf("finding %s: witness is not a C17 case: %v", f.ID, err)
+			continue
+		}
+		cs = append(cs, evid.Class{Name: f.Class, Witness: func() *evid.Failure { return checkCase(c) }})
+	}
+	evid.RunWitnesses(t, cs)
+}
